@@ -129,6 +129,9 @@ func (s *Socket) RecvMsg(b []byte) (int, Msg, error) {
 		return 0, msg, err
 	}
 	if flags&(syscall.MSG_TRUNC|syscall.MSG_CTRUNC) != 0 {
+		// the message is dropped, but the kernel has already installed the
+		// file descriptors that came with it
+		closeRights(s.recvBuff[:oobn])
 		return 0, msg, errMessageTruncated
 	}
 	// parse oob msg
@@ -141,6 +144,26 @@ func (s *Socket) RecvMsg(b []byte) (int, Msg, error) {
 		return 0, msg, err
 	}
 	return n, msg, nil
+}
+
+// closeRights closes the file descriptors carried by the control messages of a dropped message
+func closeRights(oob []byte) {
+	msgs, err := syscall.ParseSocketControlMessage(oob)
+	if err != nil {
+		return
+	}
+	for _, m := range msgs {
+		if m.Header.Level != syscall.SOL_SOCKET || m.Header.Type != syscall.SCM_RIGHTS {
+			continue
+		}
+		fds, err := syscall.ParseUnixRights(&m)
+		if err != nil {
+			continue
+		}
+		for _, f := range fds {
+			syscall.Close(f)
+		}
+	}
 }
 
 func parseMsg(msgs []syscall.SocketControlMessage) (msg Msg, err error) {
